@@ -418,7 +418,8 @@ pub fn run_generic(cx: &mut Ctx, fmt: Fmt) {
         });
     }
     if !cx.a.quick() && !miri && cx.a.scale >= 0.99 {
-        {
+        if fmt == Fmt::Lz10 {
+            // (LZ10 only: the same input costs LZ13 more than the per-case CPU budget)
             // more than 4 MiB of word-structured text: short matches nearby, longer ones further back
             cx.case("large_text_like_4MiB", |c| {
                 c.sit("large_input");
